@@ -989,6 +989,22 @@ def _sub_iter(I, st, r):
     return It("rep", [TOP])
 
 
+def iter_chain(I, st, depth, callee, args, body, ln):
+    a, b = args[0], args[1]
+    if isinstance(a, It) and isinstance(b, It) and a.kind == "exact" and b.kind == "exact":
+        return It("exact", a.items + b.items)
+    if isinstance(a, It) and isinstance(b, It):
+        return It("rep", tuple(set(a.items) | set(b.items)))
+    return TOP
+
+
+def iter_rev(I, st, depth, callee, args, body, ln):
+    a = args[0]
+    if isinstance(a, It) and a.kind == "exact":
+        return It("exact", tuple(reversed(a.items)))
+    return a if isinstance(a, It) else TOP
+
+
 def iter_enumerate(I, st, depth, callee, args, body, ln):
     it = _it(I, st, args[0])
     if it.kind == "exact":
@@ -1358,6 +1374,8 @@ TABLE.update({
     "core::iter::traits::iterator::Iterator::filter": iter_filter,
     "core::iter::traits::iterator::Iterator::flat_map": iter_flat_map,
     "core::iter::traits::iterator::Iterator::enumerate": iter_enumerate,
+    "core::iter::traits::iterator::Iterator::chain": iter_chain,
+    "core::iter::traits::iterator::Iterator::rev": iter_rev,
     "core::iter::traits::iterator::Iterator::for_each": iter_for_each,
     "core::iter::traits::iterator::Iterator::fold": iter_fold,
     "core::iter::traits::iterator::Iterator::collect": iter_collect,
